@@ -210,8 +210,9 @@ for lo, hi in ((1, 5), (5, 9), (9, 13), (13, 18)):
     REG.add(f"pagination/first-page-{lo}-{hi - 1}", pagination, pre=lambda p1, p2, p3, lo=lo, hi=hi: lo <= p1 < hi and 1 <= p2 <= 4 and p3 == 3, timeout=1500, weight=4, funcs=F,
             desc=f"the controller returns p1 symbols in its first reply (symbolic {lo}..{hi - 1}), p2 in the second (symbolic 1..4), 3 in the third, then the rest, per scope "
                  "(reduced project: 16 controller-scope symbols); the uploaded database must not depend on them")
-REG.add("pagination/three-symbolic-page-sizes", pagination, pre=lambda p1, p2, p3: 1 <= p1 <= 16 and 1 <= p2 <= 16 and 1 <= p3 <= 16, timeout=6000, weight=4, funcs=F, tier="thorough",
-        desc="first three page sizes each symbolic 1..16")
+for lo, hi in ((1, 4), (4, 7)):
+    REG.add(f"pagination/three-symbolic-page-sizes/{lo}-{hi - 1}", pagination, pre=lambda p1, p2, p3, lo=lo, hi=hi: lo <= p1 < hi and 1 <= p2 <= 5 and 1 <= p3 <= 5, timeout=2400, weight=4, funcs=F,
+            tier="thorough", desc=f"first page size symbolic {lo}..{hi - 1}, second and third each symbolic 1..5")
 
 
 def template_fragments(frag: int) -> str:
